@@ -191,3 +191,26 @@ def guard_implies(cond, label, pred, want):
 def guarded(g, ev, pred, want):
     """some dominating branch implies that the atom has value `want` at ev"""
     return any(guard_implies(cond, label, pred, want) for cond, label, cn in g.guards_of(ev))
+
+
+def direct_exprs(stmt):
+    """expressions of statements executed unconditionally when `stmt` is entered (no nested control flow)"""
+    out = []
+    if stmt is None:
+        return out
+    if stmt['k'] == 'block':
+        for c in stmt['s']:
+            if c['k'] in ('if', 'switch', 'for', 'while', 'do', 'rangefor'):
+                break
+            out.extend(direct_exprs(c))
+            if c['k'] in ('return', 'break', 'continue'):
+                break
+    elif stmt['k'] == 'expr':
+        out.extend(walk_expr(stmt['e']))
+    elif stmt['k'] == 'decl':
+        for v in stmt['vars']:
+            if v.get('init') is not None:
+                out.extend(walk_expr(v['init']))
+    elif stmt['k'] == 'return' and stmt.get('e') is not None:
+        out.extend(walk_expr(stmt['e']))
+    return out
